@@ -1,4 +1,4 @@
-import Ptn.C14.Koenig
+import Ptn.C14.Final
 /-! Helper lemmas for C14 (core Lean only).  The bulk lives in
 `Spec` (vocabulary), `Duality` (weak duality), `GraphLemmas` (construction), `Explore`
 (alternating-path exploration), `Koenig` (cover loop), `Matching` (Hopcroft-Karp invariants),
